@@ -33,7 +33,11 @@ def build(wd, ents):
         shutil.rmtree(t, ignore_errors=True)
         os.makedirs(t)
         shutil.copytree("/repo/src", os.path.join(t, "src"))
-        r = subprocess.run(["patch", "-s", "-p1", "-i", os.path.join(d, "patch.diff")], cwd=t, capture_output=True, text=True)
+        # only the part of the patch that touches src/ (docs / tests are not copied)
+        txt = open(os.path.join(d, "patch.diff")).read()
+        parts = ("\n" + txt).split("\ndiff --git ")
+        keep = "".join("diff --git " + p_ + "\n" for p_ in parts[1:] if p_.split("\n", 1)[0].split(" b/")[-1].startswith("src/"))
+        r = subprocess.run(["patch", "-s", "-p1"], cwd=t, input=keep, capture_output=True, text=True)
         if r.returncode:
             print("PATCH FAIL", n, (r.stdout + r.stderr)[:200])
 
